@@ -53,8 +53,10 @@ func stressRequest(i, k int, lst *vTrans) *RawMessage {
 // net.Pipe connections have no TCP addresses; give them some
 type vPipeConn struct{ net.Conn }
 
-func (c *vPipeConn) LocalAddr() net.Addr  { return &net.TCPAddr{IP: net.IPv4(127, 0, 0, 1), Port: 5061} }
-func (c *vPipeConn) RemoteAddr() net.Addr { return &net.TCPAddr{IP: net.IPv4(127, 0, 0, 1), Port: 40001} }
+func (c *vPipeConn) LocalAddr() net.Addr { return &net.TCPAddr{IP: net.IPv4(127, 0, 0, 1), Port: 5061} }
+func (c *vPipeConn) RemoteAddr() net.Addr {
+	return &net.TCPAddr{IP: net.IPv4(127, 0, 0, 1), Port: 40001}
+}
 
 type vNullHandler struct{}
 
